@@ -231,13 +231,19 @@ const _: () = {
             }
         }
 
+        /// a field the target doesn't know is skipped whatever it holds:
+        /// a text, or any number of files (including the part of a file input left unselected)
+        fn deserialize_ignored_any<V>(self, visitor: V) -> Result<V::Value, Self::Error>
+        where V: serde::de::Visitor<'de> {
+            visitor.visit_unit()
+        }
+
         serde::forward_to_deserialize_any! {
             i8 i16 i32 i64 u8 u16 u32 u64 f32 f64
             char bool
             bytes byte_buf
             enum identifier
             unit unit_struct tuple tuple_struct
-            ignored_any
         }
     }
 
